@@ -311,10 +311,14 @@ class MapMonitors:
             return
         # slices of the rebase mapping as the stub uses them
         L = len(rmaps)
-        for f in range(0, L + 1, max(1, L // 3)):
+        # the library's mirror lookup is linear, so a mirrored mapping costs O(L^2) per position:
+        # fewer slices for long chains
+        fs = range(0, L + 1, max(1, L // 3)) if L <= 24 else (n, L - 1)
+        for f in fs:
             if not self.check_mapping(tr.mapping.slice(f), RM.slice(f), psize + 2, dict(det, law="slice", f=f)):
                 return
-            for t in sorted({f, (f + L) // 2, max(f, L - 1)}):
+            ts = sorted({f, (f + L) // 2, max(f, L - 1)}) if L <= 24 else [max(f, L - 1)]
+            for t in ts:
                 if not self.check_mapping(tr.mapping.slice(f, t), RM.slice(f, t), psize + 2,
                                           dict(det, law="slice", f=f, t=t)):
                     return
@@ -385,12 +389,16 @@ class MapMonitors:
         lo, hi = min(v1, v2), max(v1, v2)
         if lo == hi:
             return
+        lo = max(lo, hi - 24)  # bound the cost (mirror lookups are quadratic in the chain length)
+        if mid is not None:
+            mid = max(lo, min(hi, mid))
         maps = auth.maps[lo:hi]
         rm = [self.rmap_of(s) for s in auth.steps[lo:hi]]
         if not any(r.t for r in rm):
             return
         s0 = len(tk.tokens(sim.r3[lo]["doc"], "structural"))
         s1 = len(tk.tokens(sim.r3[hi]["doc"], "structural"))
+        v1, v2 = (lo, hi) if v1 <= v2 else (hi, lo)
         det = {"shape": "translate:" + mode, "maps": [r.t for r in rm], "v1": v1, "v2": v2}
         self.count("C08", ("translate", mode, tuple(tuple(r.t) for r in rm)))
         self.probes["C08.translate:" + mode] += 1
@@ -403,9 +411,10 @@ class MapMonitors:
 
     def translate_(self, auth, mode, lo, hi, mid, maps, rm, s0, s1, det, v1, v2):
         if mode == "plain":
-            full = Mapping(list(auth.maps[:hi]))
-            rfull = refmap.RMapping([self.rmap_of(s) for s in auth.steps[:hi]])
-            self.check_mapping(full.slice(lo, hi), rfull.slice(lo, hi), s0, det)
+            base = max(0, lo - 8)
+            full = Mapping(list(auth.maps[base:hi]))
+            rfull = refmap.RMapping([self.rmap_of(s) for s in auth.steps[base:hi]])
+            self.check_mapping(full.slice(lo - base, hi - base), rfull.slice(lo - base, hi - base), s0, det)
         elif mode == "split":
             mid = max(lo, min(hi, mid if mid is not None else lo))
             X = Mapping()
